@@ -1,6 +1,6 @@
 SPECIFICATION Spec
 CONSTANTS
-  MaxLen = 7
+  MaxLen = 6
   Alphabet <- SubsecAlphabet
 INVARIANTS StartLeI Sound NsDigit EmitWF
 PROPERTY Total
